@@ -49,6 +49,7 @@ type MsgView struct {
 	Recent bool
 	Marker string
 	Body   []byte
+	Size   int64 // RFC822.SIZE when fetched with the body, else -1
 }
 
 func (m MsgView) FlagKey() string { return strings.Join(m.Flags, " ") }
@@ -177,6 +178,13 @@ func fetchRows(res *imapc.Result) ([]MsgView, error) {
 			mv.Flags, mv.Recent = normFlags(n.Strings())
 		}
 
+		mv.Size = -1
+		if n, ok := items["RFC822.SIZE"]; ok {
+			if v, err := strconv.ParseInt(n.Str, 10, 64); err == nil {
+				mv.Size = v
+			}
+		}
+
 		for k, v := range items {
 			if strings.HasPrefix(k, "BODY[HEADER.FIELDS") {
 				mv.Marker = markerFromHeaderFields(v.Str)
@@ -253,7 +261,7 @@ func viewOn(c *imapc.Conn, mailbox string, withBody, examine bool) (*BoxView, er
 
 	what := "(UID FLAGS BODY.PEEK[HEADER.FIELDS (" + markerHeader + ")])"
 	if withBody {
-		what = "(UID FLAGS BODY.PEEK[])"
+		what = "(UID FLAGS RFC822.SIZE BODY.PEEK[])"
 	}
 
 	res := c.Cmd("FETCH 1:* " + what)
